@@ -27,6 +27,10 @@ CONSTANTS
               \*   crit : [Hooks -> BOOLEAN], fails : SUBSET Hooks (hooks whose call returns an error)
               \*   plan : sequence of events to request, bodyfails : indices of plan whose task commands fail
               \*   teardown : BOOLEAN (destroy the environment after the plan)
+              \*   quiet : indices of plan requested from INSIDE the core (handleDeviceEvent on END_OF_STREAM: TryTransition(
+              \*           STOP_ACTIVITY), the error only logged): no caller, no GO_ERROR follow-up, a refused or cancelled
+              \*           attempt leaves the environment where it was and the event may be requested again
+              \*   once : hooks of `fails` whose call fails the first time it is started only
   Code_AwaitWeightNotScheduled
 
 VARIABLE cfg
@@ -37,6 +41,10 @@ Fails == cfg.fails
 Plan == cfg.plan
 BodyFails == cfg.bodyfails
 Teardown == cfg.teardown
+Quiet == cfg.quiet
+Once == cfg.once
+\* does call instance <<hook, n>> return an error?
+FailsInst(c) == c[1] \in Fails /\ (c[1] \in Once => c[2] = 1)
 
 Table == [CONFIGURE |-> [src |-> "DEPLOYED", dst |-> "CONFIGURED"],
           RESET |-> [src |-> "CONFIGURED", dst |-> "DEPLOYED"],
@@ -106,7 +114,8 @@ Request ==
   /\ pos.mom = "idle" /\ ti <= Len(Plan)
   /\ IF Legal(Plan[ti])
        THEN /\ StartTx(Plan[ti]) /\ UNCHANGED <<cfg, results, ti>>
-       ELSE /\ results' = Append(results, [ev |-> Plan[ti], ok |-> FALSE, st |-> st, src |-> st, errs |-> {}, at |-> "illegal"])
+       ELSE /\ results' = IF ti \in Quiet THEN results   \* (the internal requester looks at the state first: nothing happens)
+                           ELSE Append(results, [ev |-> Plan[ti], ok |-> FALSE, st |-> st, src |-> st, errs |-> {}, at |-> "illegal"])
             /\ ti' = ti + 1 /\ UNCHANGED <<cfg, tx, pos>>
   /\ UNCHANGED <<cfg, st, inst, live, ret, pend, passerr, hist, run, clock, seen>>
 
@@ -150,10 +159,10 @@ AwaitCalls ==
      IN /\ D \subseteq ret
         /\ ret' = ret \ D
         /\ pend' = pend \ due
-        /\ passerr' = passerr \cup (DH \cap Fails)
+        /\ passerr' = passerr \cup {c[1] : c \in {d \in D : FailsInst(d)}}
         /\ hist' = hist \o [i \in 1..(IF D = {} THEN 0 ELSE 1) |-> H("collect", D, w)]
         \* stop at the first weight with a critical failure
-        /\ pos' = [pos EXCEPT !.ph = "start", !.wl = IF \E h \in DH \cap Fails : Crit[h] THEN <<>> ELSE Tail(pos.wl)]
+        /\ pos' = [pos EXCEPT !.ph = "start", !.wl = IF \E d \in D : FailsInst(d) /\ Crit[d[1]] THEN <<>> ELSE Tail(pos.wl)]
   /\ UNCHANGED <<cfg, st, ti, tx, inst, live, results, run, clock, seen>>
 
 \* end of a handleHooks pass: critical failures are reported
@@ -212,8 +221,8 @@ End ==
   /\ LET ok == ~tx.stop /\ tx.errs = {}
          isFollowup == tx.ev = "GO_ERROR" /\ Plan[ti] # "GO_ERROR"
      IN /\ run' = IF tx.ev = "STOP_ACTIVITY" /\ ~tx.stop THEN [run EXCEPT !.rn = 0] ELSE run
-        /\ IF isFollowup
-             THEN /\ ti' = ti + 1 /\ pos' = Idle /\ UNCHANGED results
+        /\ IF isFollowup \/ ti \in Quiet
+             THEN /\ ti' = ti + 1 /\ pos' = Idle /\ UNCHANGED results     \* (a quiet request: nobody to answer, no follow-up)
              ELSE /\ results' = Append(results, [ev |-> tx.ev, ok |-> ok, st |-> st, src |-> tx.src, errs |-> tx.errs, at |-> tx.at])
                   /\ IF ok \/ st = "ERROR"
                        THEN /\ ti' = ti + 1 /\ pos' = Idle
@@ -261,7 +270,7 @@ Barrier ==
     LET started == UNION {hist[k].hs : k \in {x \in Starts : x < i}}
         collected == UNION {hist[k].hs : k \in {x \in Collects : x < i}}
         stoppedAt == {hist[k].w : k \in {x \in Collects : x < i /\ hist[x].ti = hist[i].ti /\ hist[x].ev = hist[i].ev /\ hist[x].m = hist[i].m
-                                                     /\ \E c \in hist[x].hs : c[1] \in Fails /\ Crit[c[1]]}}
+                                                     /\ \E c \in hist[x].hs : FailsInst(c) /\ Crit[c[1]]}}
     IN \A c \in started \ collected :
          LET h == c[1] IN
          ~(/\ Await[h][1] = hist[i].m
